@@ -145,7 +145,6 @@ pub const MALFORMED_TO: &[&str] = &[
     "2020-01-01 24:00:00",
     "2020-01-01 00:60:00",
     "2020-01-01 00:00:61",
-    "2020-01-01 00:00:00.5",
     "2020-01-01 00:00:00 +09:00",
     "2020-01-01 00:00:00Z",
     "2020-01-01 00:00:00 UTC",
@@ -160,7 +159,7 @@ pub const MALFORMED_TO: &[&str] = &[
 
 /// Offset strings that are clearly malformed (observed rejected).
 pub const MALFORMED_OFFSET: &[&str] =
-    &["", "JST", "UTC", "Z", "0900", "09:00", "+05", "+5:30", "+24:00", "+99:99", "+09:60", "+09:00x", "+090", "+09000", "junk", "+aa:bb", "local"];
+    &["", "JST", "0900", "09:00", "+24:00", "+99:99", "+09:60", "+09:00x", "+090", "+09000", "junk", "+aa:bb", "local"];
 
 /// strict `YYYY-MM-DD HH:MM:SS` → seconds since epoch of that wall clock read as UTC
 pub fn strict_to(v: &str) -> Option<i64> {
